@@ -296,6 +296,47 @@ class C17(Prop):
         js.append({'custom': 'sp_witness', 'dseed': 0})
         return js
 
+    def extra_corr(self, tr, drv):
+        """the tracker calls the ENGINE MODEL says each event makes (TrackerInc.calls_event_step: what the T2 theorems of Inv/TrackerInc.v
+        fold the incremental updates over) compared with the calls the real engine makes to its tracker in that event, on stage-1
+        configurations; the TrackerInc invariant (tinvc_b) is evaluated on the same real snapshots"""
+        import engine_k2, sx
+        cfg = tr.cfg
+        if not engine_k2.in_scope(cfg) or not tr.frames:
+            return None
+        ecfg = engine_k2.enc_cfg(cfg)
+        st = {'events_whose_tracker_calls_were_compared_with_the_model': 0, 'tracker_calls_compared': 0}
+        prev = tr.init
+        lab = tr.frames[0]['label']
+        nxt = 0 if lab[0] == 'arrival' else lab[1]
+        now = tr.frames[0]['now']
+        if len(getattr(tr, 'run_ends', None) or []) > 1:
+            return None
+        for k, f in enumerate(tr.frames[:40]):
+            if not isinstance(now, int):
+                break
+            v = drv.ask('m41', sx.dump([ecfg, engine_k2.enc_state(prev, cfg, nxt, now), engine_k2.draws_of(f['cev'])]))
+            o = engine_k2.parse(v[1]) if v[0] == 'M' else None
+            if not isinstance(o, list) or len(o) != 2:
+                return {'stats': st, 'mismatch': {'frame': k + 1, 'what': 'AllRun.run_calls could not read the snapshot', 'got': str(v)[:120]}}
+            real = []
+            for e in f['cev']:
+                if e[0] == 'TrkAcc':
+                    real.append([0, e[1], e[2]])
+                elif e[0] == 'TrkBlk':
+                    real.append([1, e[1], e[2], e[3], e[4]])
+                elif e[0] == 'TrkRel':
+                    real.append([2, e[1], e[2], e[3], e[4], e[5]])
+                elif e[0] == 'TrkChg':
+                    real.append([3, e[1], e[2], e[3]])
+            if o[0] != 1 or o[1] != real:
+                return {'stats': st, 'mismatch': {'frame': k + 1, 'what': 'the tracker calls of the engine model differ from the real engine\'s, or the TrackerInc invariant fails on the real snapshot',
+                                                  'invariant': o[0], 'model_calls': o[1][:8], 'real_calls': real[:8], 'label': f['label']}}
+            st['events_whose_tracker_calls_were_compared_with_the_model'] += 1
+            st['tracker_calls_compared'] += len(real)
+            prev, nxt, now = f['snap'], f['next'], f['next_date']
+        return {'stats': st}
+
     def adjust(self, cfg, job):
         if cfg.get('tracker') is None or 'tix' in job:
             rng = random.Random('c17t/%s/%s' % (cfg.get('gen_seed'), cfg.get('region')))
